@@ -28,6 +28,27 @@ DEFAULT_OPAQUE_IDS = ('ipr::util::string::arena::make_string(const char8_t *, lo
 SKIP_ACCESSORS = {'accept', 'begin', 'end'}
 
 
+_ROOTS = {}
+
+
+def set_facts(F):
+    """Remember, for rendering, which declaration every virtual member function ultimately overrides."""
+    if _ROOTS.get('__key__') == F.key:
+        return
+    _ROOTS.clear()
+    _ROOTS['__key__'] = F.key
+    direct = {}
+    for r in F.rec.values():
+        for m in r.get('methods', []):
+            if m.get('overrides'):
+                direct[m['id']] = m['overrides'][0]
+    for fid in direct:
+        cur, n = fid, 0
+        while cur in direct and n < 12:
+            cur, n = direct[cur], n + 1
+        _ROOTS[fid] = cur
+
+
 def holder_field(o):
     """The single data member of an Optional<T> / util::ref<T> object (whatever it is called)."""
     ks = list(o.fields)
@@ -40,6 +61,8 @@ SEQUENCE_STORES = ('ipr::impl::obj_list', 'ipr::impl::obj_sequence', 'ipr::impl:
 
 
 def default_opaque(F):
+    set_facts(F)
+
     def op(fid):
         f = F.fn.get(fid)
         if f is None:
@@ -211,7 +234,9 @@ def render(t, st, names, _d=0):
     if k == 'un':
         return f'{t[1]}{R(t[2])}'
     if k in ('call', 'vcall'):
-        fn = short(fn_qname(t[1]))
+        # a virtual member is named by the declaration it ultimately overrides: `seq.size()` reads the same whether the
+        # call went through the interface or straight to the final overrider
+        fn = short(fn_qname(_ROOTS.get(t[1], t[1])))
         recv = (R(t[2]) + '.') if t[2] is not None else ''
         return f'{recv}{fn}({", ".join(R(a) for a in t[3])})'
     if k == 'list':
